@@ -1,9 +1,9 @@
 """C11 -- Expect: 100-continue handshake: body is sent iff the server did not refuse."""
 from .lib import *
 
-RULE = ("POST/PUT with Expect: 100-continue (HTTP/1.0 POST and HTTP/1.1, Content-Length or chunked) against server streams whose first "
+RULE = ("POST/PUT (and GET/DELETE/OPTIONS with send_body_despite_method) with Expect: 100-continue (HTTP/1.0 POST and HTTP/1.1, Content-Length or chunked) against server streams whose first "
         "head is: a bare 100 with reason phrase {Continue, empty, absent, long, obs-text}; another status (200, 403, 417, 500, 301, "
-        "and the other informational codes 101, 102, 103, 199) without fields; another status with 1..3 fields; two late 100s in a row -- for EVERY cut position of that head x {look once at the cut then advance, "
+        "and the other informational codes 101, 102, 103, 199) without fields; another status with 1..3 fields (incl. Connection: close / keep-alive); two late 100s in a row -- for EVERY cut position of that head x {look once at the cut then advance, "
         "look at every 1-byte arrival up to the cut then advance} x later path (body then final response incl. a late 100, or the "
         "refused response directly). Every flow is driven to Cleanup. non-trivial = Await100 reached and the flow completed; distinct = "
         "distinct op lists")
@@ -20,7 +20,7 @@ def first_heads(rng):
     out.append(("100", b"HTTP/1.0 100 Continue\r\n\r\n", None))
     for st in [200, 403, 417, 500, 301, 101, 102, 103, 199]:
         out.append(("bare", b"HTTP/1.1 %d Nope\r\n\r\n" % st, None))
-    for st, fields in [(403, [(b"Content-Length", b"0")]), (417, [(b"Connection", b"close"), (b"Content-Length", b"0")]),
+    for st, fields in [(403, [(b"Content-Length", b"0")]), (403, [(b"Connection", b"keep-alive"), (b"Content-Length", b"0")]), (417, [(b"Connection", b"close"), (b"Content-Length", b"0")]),
                        (200, [(b"X-A", b"b"), (b"Content-Length", b"0"), (b"X-C", b"d")]), (103, [(b"Link", b"</s.css>; rel=preload")]), (401, [(b"Content-Length", b"0"), (b"WWW-Authenticate", b"Basic")])]:
         head = render_response_head("1.1", st, b"No", fields)
         first_line_end = head.index(b"\r\n") + 2
@@ -29,13 +29,16 @@ def first_heads(rng):
     return out
 
 
-def build(rng, version, framing, kind, h1, field_end, cut, mode, double=False):
+def build(rng, version, framing, kind, h1, field_end, cut, mode, double=False, despite=False):
     headers = [("expect", "100-continue")]
     if framing == "length":
         headers.append(("content-length", "2"))
     method = "POST" if version == "1.0" else rng.choice(["POST", "PUT"])
     stream = h1 + (h1 if double else b"") + (FINAL if kind == "100" else b"")
-    ops = [op_new(method, version, "http", "a.test", "/e", headers), "proceed", "write_head #4096", "proceed", "stream %s" % hx(stream)]
+    if despite:
+        # a method that normally has no body, sent with one on request: the handshake applies all the same
+        method = rng.choice(["GET", "DELETE", "OPTIONS"]) if version == "1.1" else "GET"
+    ops = [op_new(method, version, "http", "a.test", "/e", headers)] + (["despite"] if despite else []) + ["proceed", "write_head #4096", "proceed", "stream %s" % hx(stream)]
     if mode == "once":
         ops += ["arrive %s" % num(cut), "try100", "q_keep_await"]
     else:
@@ -75,6 +78,8 @@ def generate(rng, tier, mult):
                         if mode == "every" and cut > 60 and tier == "quick" and cut < len(h1) - 3:
                             continue
                         out.append(build(rng, version, framing, kind, h1, fe, cut, mode))
+                for cut in sorted(set([0, len(h1) // 2, len(h1) - 1, len(h1)])):
+                    out.append(build(rng, version, framing, kind, h1, fe, cut, "once", despite=True))
                 if kind == "100":
                     # two late interim responses: only the first may be skipped ("exactly once")
                     for cut in (0, 5, len(h1) - 1):
@@ -110,6 +115,8 @@ def oracle(script, obs):
         elif p[0] == "proceed" and o.startswith("state "):
             prev = tag
             tag = o.split(" ")[1]
+            if prev == "SendRequest" and tag != "Await100":
+                return ["the request carries Expect: 100-continue and a body, but after the head the flow went to %s without awaiting the go-ahead" % tag]
             if prev == "Await100":
                 if decided == "refuse" and tag != "RecvResponse":
                     return ["refused at cut %d but proceeded to %s" % (meta["cut"], tag)]
